@@ -103,7 +103,8 @@ class Server:
         with open(self.cfgfile, "w") as f:
             f.write(self.config_text)
         self.cmd = [PY, "-m", "gunicorn", "--chdir", APPDIR, "-c", self.cfgfile, "-b", self.bind, "-k", worker_class,
-                    "-w", str(workers), "--log-level", "debug", "--error-logfile", os.path.join(self.dir, "err.log")]
+                    "-w", str(workers), "--log-level", "debug", "--error-logfile", os.path.join(self.dir, "err.log"),
+                    "--worker-tmp-dir", self.dir]       # (heartbeat files of killed workers go away with the scratch dir)
         if threads:
             self.cmd += ["--threads", str(threads)]
         if self.pidfile:
